@@ -304,7 +304,8 @@ impl Prop for C04 {
 				}
 			}
 		};
-		let target = match rng.below(8) {
+		let target = match rng.below(9) {
+			8 => Target::Reject,
 			0 | 1 | 2 => Target::capture(),
 			3 | 4 => Target::Hash,
 			5 => Target::Ignored,
@@ -370,7 +371,9 @@ impl Prop for C04 {
 			ast::gen_schema(rng, cfg)
 		};
 		let env = Env::build(&schema);
-		let vcfg = ValCfg { max_len: 1 + rng.usize(12), max_depth: 5, budget: 8 + rng.below(60) as i32, str_boost: 0, scale: None }.with_scale(scale);
+		// (one scenario in twenty carries strings of a few hundred bytes with mixed UTF-8 widths: what a refusing
+		// caller's error message quotes)
+		let vcfg = ValCfg { max_len: 1 + rng.usize(12), max_depth: 5, budget: 8 + rng.below(60) as i32, str_boost: if rng.chance(1, 20) { 600 } else { 0 }, scale: None }.with_scale(scale);
 		let v = val::gen_val(rng, &env, &schema, &vcfg);
 		let layout = Layout { seed: rng.next_u64(), split_blocks: rng.bool(), negative_counts: rng.chance(1, 3), pad_varints: 0 };
 		let (mut bytes, tokens) = ref_datum::encode(&env, &schema, &v, layout).expect("HARNESS: reference encoder rejected a generated value");
@@ -549,7 +552,12 @@ impl Prop for C04 {
 
 		// limit oracles on valid encodings
 		let mut nontrivial = scn.valid_of.is_none();
-		if let Some(v) = &scn.valid_of {
+		// (a caller that refuses the leaves it is given makes no claim on the value: only the monitors above apply)
+		let valid_of = if scn.target == Target::Reject { None } else { scn.valid_of.as_ref() };
+		if scn.target == Target::Reject && !ok {
+			out.count("refusing_caller_got_err", 1);
+		}
+		if let Some(v) = valid_of {
 			let mut classes = vec![];
 			crate::val::scale_classes(v, &mut classes);
 			classes.into_iter().for_each(|c| out.count(c, 1));
